@@ -288,10 +288,12 @@ func c14Client(e *c14Env, b C14Batch, i int, spec C14Client, tgtMux, dnsMux *tag
 		if wait := time.Until(lastPlain.Add(e.tau - guard)); wait > 0 {
 			time.Sleep(wait)
 		}
-		if time.Now().Before(lastPlain.Add(e.tau-guard/2)) && !alive(e.tgt, natSrc, "plain", guard/2) {
-			if r.Removed() > 0 {
-				return kit.Violation("nat:expired-early", "client %d (%s): association removed %v after its last datagram, timeout is %v", i, spec.Script, time.Since(lastPlain), e.tau)
-			}
+		if time.Now().Before(lastPlain.Add(e.tau - guard/2)) {
+			alive(e.tgt, natSrc, "plain", guard/2)
+		}
+		// sound: both instants come from this process' monotonic clock, and lastPlain was taken before the send
+		if at := r.RemovedAt(); !at.IsZero() && at.Before(lastPlain.Add(e.tau)) {
+			return kit.Violation("nat:expired-early", "client %d (%s): association removed %v after its last datagram was sent, timeout is %v", i, spec.Script, at.Sub(lastPlain), e.tau)
 		}
 		if f := expectRemovedBy(r, natSrc, time.Until(lastPlain.Add(e.tau))+2*time.Second, "the last non-DNS datagram + timeout"); f != nil {
 			return f
@@ -368,9 +370,14 @@ func c14Client(e *c14Env, b C14Batch, i int, spec C14Client, tgtMux, dnsMux *tag
 			time.Sleep(wait)
 		}
 		// at least 17 s after the most recent DNS datagram, and the deadline never moves earlier
-		if time.Since(lastDNS) < dnsTau-300*time.Millisecond {
-			if r.Removed() > 0 || !alive(e.tgt, natSrc, "late", time.Second) && time.Since(lastDNS) < dnsTau-1300*time.Millisecond {
-				return kit.Violation("nat:expired-early", "client %d (%s): association gone %v after its most recent DNS datagram (promised 17 s; configured timeout %v; removed=%v)", i, spec.Script, time.Since(lastDNS), e.tau, r.Removed() > 0)
+		stillThere := alive(e.tgt, natSrc, "late", time.Second)
+		if at := r.RemovedAt(); !at.IsZero() && at.Before(lastDNS.Add(dnsTau)) {
+			return kit.Violation("nat:expired-early", "client %d (%s): association removed %v after its most recent DNS datagram was sent (promised 17 s; configured timeout %v)", i, spec.Script, at.Sub(lastDNS), e.tau)
+		}
+		if !stillThere && r.Removed() == 0 && time.Since(lastDNS) < dnsTau-2*time.Second {
+			// not removed, yet a datagram sent to its outbound address did not come through: ask twice more before judging
+			if !alive(e.tgt, natSrc, "late2", 2*time.Second) && !alive(e.tgt, natSrc, "late3", 2*time.Second) && r.Removed() == 0 {
+				return kit.Violation("nat:unusable-before-deadline", "client %d (%s): %v after its most recent DNS datagram the association is not reported removed but does not relay (3 attempts)", i, spec.Script, time.Since(lastDNS))
 			}
 		}
 	case "plain-reply53":
@@ -384,8 +391,8 @@ func c14Client(e *c14Env, b C14Batch, i int, spec C14Client, tgtMux, dnsMux *tag
 		}
 		if time.Since(lastPlain) < e.tau-guard {
 			time.Sleep(time.Until(lastPlain.Add(e.tau - guard)))
-			if r.Removed() > 0 && time.Since(lastPlain) < e.tau {
-				return kit.Violation("nat:expired-early", "client %d (plain-reply53): association removed %v after a non-DNS datagram (timeout %v) following a datagram from port 53", i, time.Since(lastPlain), e.tau)
+			if at := r.RemovedAt(); !at.IsZero() && at.Before(lastPlain.Add(e.tau)) {
+				return kit.Violation("nat:expired-early", "client %d (plain-reply53): association removed %v after a non-DNS datagram (timeout %v) following a datagram from port 53", i, at.Sub(lastPlain), e.tau)
 			}
 		}
 		if f := expectRemovedBy(r, natSrc, time.Until(lastPlain.Add(e.tau))+2*time.Second, "the last non-DNS datagram + timeout"); f != nil {
